@@ -59,6 +59,20 @@ def method(fx, role, self_ty=None, inputs=None, output=None, hint=None, kind=("m
         named = [f for f in cands if f["id"].split("::")[-1] == hint]
         if len(named) == 1:
             cands = named
+    if (not cands or (len(cands) > 1 and not any(f["id"].split("::")[-1] == hint for f in cands))) and hint and inputs is not None:
+        cands = []
+        # the role function gained trailing parameters (a value the caller now passes along): same owner, same name, the
+        # expected parameters unchanged and in front, same result.  Argument positions the rules use are unaffected.
+        for f in fx.fns.values():
+            if f["kind"] not in kind or f["id"].split("::")[-1] != hint:
+                continue
+            if self_ty is not None and (f.get("impl_self") != self_ty or f.get("impl_trait")):
+                continue
+            if trait is not None and f.get("impl_trait") != trait:
+                continue
+            fi = f.get("inputs", [])
+            if len(fi) > len(inputs) and sig_match(dict(f, inputs=fi[:len(inputs)]), inputs, output):
+                cands.append(f)
     if not cands:
         raise AnchorLost(role, "no function with impl type %s and signature %s -> %s" % (self_ty, inputs, output))
     if len(cands) > 1:
